@@ -64,6 +64,7 @@ type fxRun struct {
 	StartSeq int // global event counter at start / end (for overlap checks)
 	EndSeq   int
 	FilesOK  string // "" or a complaint about the prepared files
+	Failed   bool   // the script made this run fail (by exit code or by its output files)
 }
 
 type fxTaskEvent struct {
